@@ -28,6 +28,7 @@ OWNER = {
     "an item that is not in the list yet": ["C15"],
     "generate_stub renders a function-local class": ["C20"],
     "a tuple default of a ListField": ["C02"],
+    "an untyped DictField stores a copy": ["C13"],
 }
 log = subprocess.run(["git", "-C", "/repo", "log", "--format=%h %s", "--grep=^fix:"], capture_output=True, text=True).stdout.strip().splitlines()
 only = sys.argv[1:]
